@@ -14,7 +14,7 @@ RULE = ('reader level: files of 0..4 records per format (BED, two-line FASTA, FA
         'buffer compared with the Coq reader model; end to end: bnp.open(path).read_chunks(k) vs .read() on real plain/.gz files '
         'of every listed format, lazy and eager. non-trivial = more than one chunk delivered')
 EXHAUSTIVE = {'quick': False, 'thorough': False}
-TIE = 'correspondence (reader state machine + per-format cut functions evaluated in Coq on the same bytes and chunk size)'
+TIE = 'translator+correspondence (Gen/C01.v regenerated from parser.py, one_line_buffer.py, fastq_buffer.py, delimited_buffers.py, npdataclassreader.py; Bridge/C01.v; reader state machine + cut functions evaluated in Coq on the same bytes and chunk size)'
 ASSUMPTIONS = ['A-IO: read(n) on a regular file / BytesIO / GzipFile returns fewer than n bytes only at end of file',
                'gzip decompression is not modelled; .gz files are exercised end to end only']
 PARTIAL = []
